@@ -267,21 +267,26 @@ class SqlEnv:
         mod = importlib.import_module("llama_agents.server._store.sqlite.sqlite_workflow_store")
         self.ws = mod.SqliteWorkflowStore(self.path)
         self.n = 0
+        # one connection of the harness stays open: the stores' per-call connections are then never the last
+        # one to close (which checkpoints and deletes the WAL file on every single close)
+        import sqlite3
+
+        self.keep = sqlite3.connect(self.path, timeout=30.0)
+        self.keep.execute("SELECT count(*) FROM workflow_state").fetchall()
 
     def store(self, kind: str) -> Any:
         self.n += 1
         return self.ws.create_state_store(f"run-{self.n}", state_type=model_of(kind))
 
     def raw_row(self, run_id: str) -> Any:
-        import sqlite3
-
-        conn = sqlite3.connect(self.path, timeout=30.0)
-        try:
-            return conn.execute("SELECT state_json, state_type FROM workflow_state WHERE run_id = ?", (run_id,)).fetchone()
-        finally:
-            conn.close()
+        rows = self.keep.execute("SELECT state_json, state_type FROM workflow_state WHERE run_id = ?", (run_id,)).fetchall()
+        return rows[0] if rows else None
 
     def close(self) -> None:
+        try:
+            self.keep.close()
+        except Exception:  # noqa: BLE001
+            pass
         shutil.rmtree(self.dir, ignore_errors=True)
 
 
